@@ -124,7 +124,9 @@ void XBW::idToStr(uint id, uint *pos, uchar **v, uint cnt) const {
 
 void XBW::subPathSearch(const uchar *qry, const uint ql, uint *left,
                         uint *right) const {
-  if (ql <= 1) {
+  // Only the empty path matches every node; a one-symbol path is searched
+  // like any other
+  if (ql < 1) {
     *left = 0;
     *right = nodesCount - 1;
     return;
